@@ -322,6 +322,49 @@ def run_shard(desc):
                                            "replay": {"steps": steps}})
         part["classes"] = sorted(part["classes"])
         return part
+    if kind == "concreg":
+        # registrations of DIFFERENT names issued by several threads at the same moment (spin rendezvous before each one): once all
+        # calls have returned, every one of them is in effect -- on the main thread and inside one program using all of them
+        for h in range(n):
+            T = rnd.choice([2, 3, 4, 8])
+            K = rnd.choice([4, 8, 16])
+            mode = ["infix", "prefix", "postfix", "fn", "mixed"][(h + si) % 5]
+            plans, checks = [[] for _ in range(T)], []
+            for k in range(K):
+                for t in range(T):
+                    role = mode if mode != "mixed" else ["infix", "prefix", "postfix", "fn"][(t + k) % 4]
+                    nm = "cq%dx%dx%d%s" % (h, t, k, "z" * ((t * 7 + k) % 11))
+                    hid = 20000 + (h * 64 + k) * 8 + t
+                    prog = {"infix": "6 %s 4", "prefix": "%s 4", "postfix": "4 %s", "fn": "%s(1)"}[role] % nm
+                    args = {"infix": ["6", "4"], "prefix": ["4"], "postfix": ["4"], "fn": ["1"]}[role]
+                    reg = {"op": "reg_" + role, "name": nm, "beh": {"id": hid, "ret": "tag"}}
+                    if role == "infix":
+                        reg.update({"prec": 110, "type": "CALC", "assoc": "LEFT"})
+                    plans[t].append({"op": "meet", "k": (h * 64 + k) % 4096, "n": T})
+                    plans[t].append(reg)
+                    checks.append((role, nm, prog, {"ok": ["l", [["n", str(hid), 0]] + [["n", a_, 0] for a_ in args]]}))
+            steps = [{"op": "exec", "text": "1 + 1"}, {"op": "threads", "plans": plans}] + [{"op": "exec", "text": c[2]} for c in checks]
+            run = common.run_vexec(steps, wd, "cq-%d-%d" % (si, h), profile, timeout=300)
+            kind_, detail = common.crash_verdict(run, "concurrent registration")
+            if kind_ is not None or not run.ended:
+                if kind_ in ("signal", "hang", "deadlock"):
+                    part["violations"].append({"sig": ["crash", kind_, "concreg"], "what": detail, "replay": {"steps": steps}})
+                else:
+                    part["inconclusive"].append("%s %s" % (kind_, detail))
+                continue
+            if run.gave_up:
+                part["inconclusive"].append("concurrent registration: %d rendezvous timed out (machine overloaded); run discarded" % run.gave_up)
+                continue
+            st = run.steps()
+            for (role, nm, prog, want), r in zip(checks, st[2:]):
+                part["evaluations"] += 1
+                part["counts"]["concurrent_registrations_checked"] = part["counts"].get("concurrent_registrations_checked", 0) + 1
+                if r.get("res") == want:
+                    part["classes"].add("concreg:%s:%s:T%d" % (mode, role, T))
+                else:
+                    part["violations"].append({"sig": ["concurrent-registration-lost", role], "what": "%d threads each issued %d register_* calls for different names at the same moments (%s); all calls returned, yet `%s` gives %s instead of the registered handler's %s" % (T, K, mode, prog, json.dumps(r.get("res")), json.dumps(want)), "replay": {"steps": steps}})
+        part["classes"] = sorted(part["classes"])
+        return part
     if kind == "xthread":
         # a registration made on one thread must be used by every later evaluation on EVERY thread, also on a long-lived thread that
         # had already met the word as a plain name (or the built-in handler) before: logical clock, no timing
@@ -472,6 +515,7 @@ def run(rep, tier):
     shards += [("edgetable", i, 8, "release" if i % 2 else "verifdbg") for i in range(16)]  # 128 deterministic edge tables
     shards += [("racereg", i, 10 if tier == "quick" else 100, "release" if i % 2 else "verifdbg") for i in range(4)]
     shards += [("xthread", i, 12 if tier == "quick" else 300, "release" if i % 2 else "verifdbg") for i in range(8)]
+    shards += [("concreg", i, 10 if tier == "quick" else 200, "release" if i % 2 else "verifdbg") for i in range(8)]
     for part in common.pmap(run_shard, shards):
         rep.merge(part)
     rep.floor = 5000
@@ -479,7 +523,7 @@ def run(rep, tier):
 
 def san_shards(tier):
     """the cross-thread dispatch and start-up override workloads under ThreadSanitizer"""
-    return [("tsan", [("xthread", 300 + i, 12, "tsan") for i in range(8)] + [("racereg", 300 + i, 5, "tsan") for i in range(4)])]
+    return [("tsan", [("xthread", 300 + i, 12, "tsan") for i in range(8)] + [("racereg", 300 + i, 5, "tsan") for i in range(4)] + [("concreg", 300 + i, 4, "tsan") for i in range(4)])]
 
 
 def replay(path):
